@@ -355,4 +355,15 @@ def parseRules : List (List Char) → Parsed (List Rule)
     | .systemExit => .systemExit
     | .indexError => .indexError
 
+/-- How the configuration file's `privacy` list and the command line's `--privacy` options combine
+(configargparse, action='append'; property C20 decides it against the real parser): values given on
+the command line REPLACE the file's list, they are not appended to it; the file's values are then
+never converted (a malformed one goes unnoticed). -/
+def effectiveValues (cli cfg : List (List Char)) : List (List Char) :=
+  if cli.isEmpty then cfg else cli
+
+/-- `Options.from_args(argv).privacy` for a config file holding `cfg` and a command line holding `cli` -/
+def parseEffective (cli cfg : List (List Char)) : Parsed (List Rule) :=
+  parseRules (effectiveValues cli cfg)
+
 end Privacy
